@@ -547,7 +547,12 @@ func (f *frame) index(x *ssa.Index) {
 	case *types.Basic: // string
 		s := f.scalar(x.X)
 		f.boundsOblige("safety.index", x.Pos(), "index", fmt.Sprintf("(bvult %s (slen %s))", i, s))
-		f.defineVal(x, fmt.Sprintf("(sbyte %s %s)", s, i))
+		if base, ok := f.enc.subOf[s]; ok {
+			// byte of a substring = byte of the string it was cut from
+			f.defineVal(x, fmt.Sprintf("(sbyte %s (bvadd %s %s))", base[0], base[1], i))
+		} else {
+			f.defineVal(x, fmt.Sprintf("(sbyte %s %s)", s, i))
+		}
 	case *types.Array:
 		a := f.scalar(x.X)
 		if _, isConst := x.Index.(*ssa.Const); !isConst {
@@ -744,6 +749,14 @@ func (f *frame) slice(x *ssa.Slice) {
 		f.boundsOblige("safety.slice", x.Pos(), "slice", cond)
 		f.defineVal(x, fmt.Sprintf("(ssub %s %s %s)", s, lo, hi))
 		n := f.vals[x].term
+		if f.enc.subOf == nil {
+			f.enc.subOf = map[string][2]string{}
+		}
+		if base, ok := f.enc.subOf[s]; ok {
+			f.enc.subOf[n] = [2]string{base[0], fmt.Sprintf("(bvadd %s %s)", base[1], lo)}
+		} else {
+			f.enc.subOf[n] = [2]string{s, lo}
+		}
 		f.assume(fmt.Sprintf("(= (slen %s) (bvsub %s %s))", n, hi, lo))
 		f.assume(fmt.Sprintf("(=> (and (= %s %s) (= %s (slen %s))) (= %s %s))", lo, zero, hi, s, n, s))
 	case *types.Slice:
